@@ -48,9 +48,38 @@ def cmp_case(name, x, y):
     return case("hash", "cmp", SHAPES[name][0], x[1], y[1], name, x[0], y[0])
 
 
+M64 = (1 << 64) - 1
+KGOLD = 0x9e3779b9
+
+
+def _comb(seed, v):
+    return seed ^ ((v + KGOLD + ((seed << 6) & M64) + (seed >> 2)) & M64)
+
+
+def collisions_c(rng, n):
+    """pairs of *unequal* values of shape C (int64, uint64, double) with equal combined hash, solved for the second
+    member (std::hash of an integer is the integer itself in libstdc++; if it were not, these are ordinary pairs)"""
+    out = []
+    for _ in range(n):
+        a = rng.choice([0, 1, -1, 7, 2 ** 40, -2 ** 63]) + rng.below(5)
+        a2 = a + 1 + rng.below(9)
+        b = rng.choice([0, 1, 5, 2 ** 63, 12345678901234567])
+        x1, x2 = _comb(0, a & M64), _comb(0, a2 & M64)
+        g = lambda x: (((x << 6) & M64) + (x >> 2)) & M64
+        b2 = ((x1 ^ x2 ^ ((b + KGOLD + g(x1)) & M64)) - KGOLD - g(x2)) & M64
+        assert _comb(x1, b) == _comb(x2, b2)
+        ct, cr = rng.choice(DBLS)
+        out.append((("%d,%d,%s" % (a, b, ct), "%d,%d,%d" % (a, b, cr)), ("%d,%d,%s" % (a2, b2, ct), "%d,%d,%d" % (a2, b2, cr))))
+    return out
+
+
 def gen_c16(tier, rng):
     big = tier == "thorough"
     out = []
+    # unequal values whose hashes collide: the operators have to go by the members, never by the hash
+    for x, y in collisions_c(rng, 200 if big else 40):
+        out.append(cmp_case("C", x, y))
+        out.append(cmp_case("C", y, x))
     for name in SHAPES:
         vals = list(values(name, GRID if (big or len(SHAPES[name][1]) <= 2) else SMALL))
         if len(vals) > 60 and not big:
